@@ -318,19 +318,17 @@ def rule_sites(ctx):
                 ctx.bad("SITES", key, ctx.site(b, c), "unknown caller of Formula::substitute: sort compatibility of %s is not established" % r)
     # the subsort table used by the last site
     sb = fx.fn("unstable::subsort")
-    v = sym.Eval(fx, inline_depth=0).function(sb)
     tab = {}
-    if v[0] == "match":
-        for a in v[2]:
-            inner = a[-1]
-            if inner[0] == "match":
-                for a2 in inner[2]:
-                    for alt in a2[0].split(" | "):
-                        tab[(a[0], alt)] = a2[-1][1]
+    sorts_ = fx.variants(S + "Sort")
+    for a in sorts_:
+        for b_ in sorts_:
+            mk = lambda so, n: ("ctor", "Variable", (("name", ("param", n)), ("sort", ("ctor", "Sort::" + so, ()))))
+            r_ = sym.Eval(fx, inline_depth=0).function(sb, [mk(a, "$n1"), mk(b_, "$n2")])
+            tab[("Sort::" + a, "Sort::" + b_)] = r_[1] if isinstance(r_, tuple) and r_[:1] == ("lit",) and isinstance(r_[1], bool) else repr(r_)[:60]
     ref = {("Sort::General", "Sort::General"): True, ("Sort::General", "Sort::Integer"): False, ("Sort::General", "Sort::Symbol"): False,
            ("Sort::Integer", "Sort::General"): True, ("Sort::Integer", "Sort::Integer"): True, ("Sort::Integer", "Sort::Symbol"): False,
            ("Sort::Symbol", "Sort::General"): True, ("Sort::Symbol", "Sort::Symbol"): True, ("Sort::Symbol", "Sort::Integer"): False}
-    ctx.add("SITES", "subsort-table", tab == ref, ctx.site(sb), "subsort(v1, v2): integer <= general, symbol <= general, reflexive, nothing else", construct=sorted(tab.items()))
+    ctx.add("SITES", "subsort-table", tab == ref, ctx.site(sb), "subsort(v1, v2) evaluated on all 9 pairs of sorts: integer <= general, symbol <= general, reflexive, nothing else", construct=sorted(tab.items()))
     te = fx.fn("unstable::transitive_equality")
     from .. import leaves
     v = sym.Eval(fx, inline_depth=0).function(te)
